@@ -15,3 +15,4 @@ from . import v1version  # noqa
 from . import version_str  # noqa
 from . import config_read  # noqa
 from . import parse_overlap  # noqa
+from . import parse_matches  # noqa
